@@ -272,6 +272,24 @@ pub fn run(ctx: &Ctx) -> Report {
             poisoned.push(Prog { class: k % 4, method: 1, tid: 0x7172_7374_7576_7778_797A_7B7C, ops }.to_case("builder_prog"));
         }
     }
+    // an application attribute that leaves its padding to the destination (the crate's documentation example
+    // does), behind a longer attribute whose bytes are not zero: the builder's FINGERPRINT is the CRC of what
+    // build() emits, zero padding included (seed C09-o: the CRC streamed through a scratch buffer that is
+    // never cleared between attributes)
+    for l in 0..=11u16 {
+        for first in [vec![Op::Typed(Kind::Software, vec![b'Z'; 40])], vec![Op::Raw(0xFF00, vec![0xFF; 23])], vec![Op::CustomLazy(21)], vec![Op::Typed(Kind::Username, vec![b'u'; 17]), Op::Raw(0x7F00, vec![0xA5; 3])]] {
+            for seal in [vec![], vec![Op::Sha1(0)], vec![Op::Sha256(1)], vec![Op::Sha1(1), Op::Sha256(0)]] {
+                for tail in [vec![], vec![Op::Raw(0xFF01, vec![1])]] {
+                    let mut ops = first.clone();
+                    ops.push(Op::CustomLazy(l));
+                    ops.extend(tail.clone());
+                    ops.extend(seal.clone());
+                    ops.push(Op::Fp);
+                    poisoned.push(Prog { class: (l % 4) as u8, method: 1, tid: 0x7172_7374_7576_7778_797A_7B7D, ops }.to_case("builder_prog"));
+                }
+            }
+        }
+    }
     acc = acc.merge(crate::props::sweep(poisoned.into_par_iter(), judge));
     Report {
         acc,
